@@ -41,7 +41,8 @@ class Ctx(object):
     def __init__(self, pid, tier, seed, level):
         self.pid = pid
         self.tier = tier
-        self.seed = seed
+        self.seed_given = int(seed)
+        self.seed = int(seed) % 101             # every derived seed (seed * k + i, k up to 3.3e7) stays below 2**32, whatever VERIF_SEED is
         self.level = level
         self.t0 = time.time()
         self.viol = {}          # signature -> dict(what, replay, count)
@@ -119,7 +120,7 @@ class Ctx(object):
         os.makedirs(REPLAYS, exist_ok=True)
         for sig, v in new:
             body = {'property': self.pid, 'signature': sig, 'what': v['what'], 'count': v['count'],
-                    'seed': self.seed, 'tier': self.tier, 'case': v['replay']}
+                    'seed': self.seed_given, 'tier': self.tier, 'case': v['replay']}
             txt = json.dumps(body, indent=1, default=jdefault, sort_keys=True)
             h = hashlib.sha1(sig.encode()).hexdigest()[:12]
             path = os.path.join(REPLAYS, '%s-%s.json' % (self.pid, h))
@@ -149,7 +150,7 @@ class Ctx(object):
         ev = {
             'property_id': self.pid,
             'tier': self.tier,
-            'seed': int(self.seed),
+            'seed': int(self.seed_given),
             'level': self.level,
             'coverage': cov,
             'assumptions': self.assumptions,
